@@ -196,7 +196,7 @@ STAGES = [
           strategy=strategy,
           examples={
               "quick": 3000,
-              "thorough": 50000
+              "thorough": 200000
           },
           fork=False)
 ]
